@@ -37,18 +37,21 @@ let model_build b =
   end
 
 (* names: the route most recently registered under the name *)
+(* routes are identified by their creation index; Table.names_set (extracted) is Route.NamedTo's effect on the name table *)
 let model_names ops name =
-  let tbl = List.fold_left (fun acc op ->
+  (* created = the paths of the routes created so far, in order; (rename k 'n) calls NamedTo(n) on the (k mod created)-th *)
+  let (tbl, created) = List.fold_left (fun (acc, created) op ->
       match op with
+      | L [A "rename"; k; n] ->
+        (names_set acc (str n) (nat_of_int (Conv.int k mod List.length created)), created)
       | L [A kind; n; p] ->
         let path = match kind with
           | "namedto" -> simple_fmt_path (str p)
           | _ -> (match reg_path false [] (str p) with Ok x -> x | Panic -> failwith "c15: path") in
-        let n = trim_space (str n) in
-        if n = [] then acc else map_set n path acc
-      | _ -> failwith "c15: bad op") [] ops in
+        (names_set acc (str n) (nat_of_int (List.length created)), created @ [path])
+      | _ -> failwith "c15: bad op") ([], []) ops in
   match List.find_opt (fun (k, _) -> str_eqb k name) tbl with
-  | Some (_, p) -> L [A "route"; sstr p]
+  | Some (_, id) -> L [A "route"; sstr (List.nth created (int_of_nat id))]
   | None -> L [A "none"]
 
 let model cs =
